@@ -120,6 +120,22 @@ pub fn run(ctx: &Ctx, ev: &mut Ev) {
             }
         }
     }
+    // (a2) every (lead byte, second byte) cell of the UTF-8 converters, completed by continuation bytes, bare and after a pad
+    if ctx.want("cells") && !tiny {
+        for a in 0xC0..=0xFFu32 {
+            if !ev.mine() { continue; }
+            for b in 0..=0xFFu32 { for (ti, tail) in [&[][..], &[0x80u8][..], &[0xBF], &[0x80, 0x80], &[0xBF, 0xBF], &[0x80, 0x61]].iter().enumerate() { for pad in [0usize, 13] {
+                let mut v = vec![b'a'; pad]; v.push(a as u8); v.push(b as u8); v.extend_from_slice(tail); v.push(b'z');
+                let src = Src { bytes: v, units: vec![] };
+                for f in [Utf8ToUtf16, Utf8ToUtf16NoRepl, Utf8ToLatin1Lossy] {
+                    if !valid_for(f, &src) { continue; }
+                    if matches!(f.src_kind(), SrcKind::Latin1Str) && std::str::from_utf8(&src.bytes).unwrap().chars().any(|c| c as u32 > 0xFF) { continue; }
+                    let dl = f.sufficient(src.bytes.len());
+                    check(&mut drv, ev, f, &src, dl, fills[ti % 3], (a as usize + ti) % 16, (b as usize) % 16, 0, true);
+                }
+            } } }
+        }
+    }
     // (b2) huge sources: lengths on both sides of 2^16 (thorough: 2^17, 2^20) for every function, sufficient and (for the
     // partial functions) half-size destinations
     if ctx.want("huge") && !tiny {
